@@ -154,7 +154,13 @@ Section WithPathMatch.
     destruct (is_nil text) eqn:Hn; cbn [negb andb].
     { intros H; injection H as <- <-. cbn. rewrite orb_false_r. auto. }
     destruct (mem_str text (l_seen st)) eqn:Hs; cbn [negb andb].
-    { intros H; injection H as <- <-. cbn. rewrite orb_false_r. auto. }
+    { destruct (if negb (existsb (hides use_global e) (l_nomsg st)) && negb use_global
+                then list_is_suppressed pm n1 e true else Some (n1, false)) as [[n1d bd]|] eqn:Hd; [|discriminate].
+      assert (Fd : map static n1d = map static (l_nomsg st)).
+      { destruct (negb (existsb (hides use_global e) (l_nomsg st)) && negb use_global).
+        - apply list_is_suppressed_spec in Hd. destruct Hd as [_ F]. apply flags_after_static in F. congruence.
+        - injection Hd as <- _. exact F1. }
+      intros H; injection H as <- <-. cbn. rewrite orb_false_r. auto. }
     destruct (existsb (hides use_global e) (l_nomsg st)) eqn:Hh; cbn [negb andb].
     { intros H; injection H as <- <-. cbn. rewrite orb_false_r. auto. }
     destruct (list_is_suppressed pm (l_nofail st) e true) as [[f1 nf]|] eqn:H2; [|discriminate].
